@@ -14,7 +14,9 @@ where the fast compressor's tests fail, so `Emit.emitSeq` models both.
 namespace Lz4V.Model.HC
 open Lz4V.Go Lz4V.Gen Lz4V.Model.Emit
 
-@[inline] def hashIdx (x : UInt32) : Nat := (blockHashHC x).toNat % htSize
+/-- `blockHashHC(x)` used directly as an index into `hashTable [htSize]int` (the Go code does not mask it:
+an out-of-range value is an index panic, recovered into an error) -/
+@[inline] def hashIdx (x : UInt32) : Nat := (blockHashHC x).toNat
 
 /-- `binary.LittleEndian.Uint32(src[i:])` -/
 def ld32 (s : Array UInt8) (i : Nat) : UInt32 :=
@@ -37,6 +39,7 @@ def chainWalk (src : Array UInt8) (ct : Array Nat) (si sn : Nat) :
   | try_+1, next, mLen, offset =>
     if next > 0 ∧ (si : Int) - next < winSize then
       if next + mLen ≥ src.size ∨ si + mLen ≥ src.size then none else
+      if next % winSize ≥ ct.size then none else   -- `c.chainTable[next&winMask]`
       let nn := ct[next % winSize]!
       if src[next + mLen]! ≠ src[si + mLen]! then chainWalk src ct si sn try_ nn mLen offset
       else
@@ -47,13 +50,15 @@ def chainWalk (src : Array UInt8) (ct : Array Nat) (si sn : Nat) :
     else some (mLen, offset)
 
 /-- the table update for the bytes covered by the match:
-`for si, ml := winStart, si+mLen; si < ml; { match >>= 8; match |= uint32(src[si+3])<<24; … si++ }` -/
+`for si, ml := winStart, si+mLen; si < ml; { match >>= 8; match |= uint32(src[si+3])<<24; … si++ }`;
+`none` = an index panicked (hash value outside `hashTable`) -/
 def rehash (src : Array UInt8) : (n : Nat) → (si : Nat) → (m : UInt32) → (ht ct : Array Nat) →
-    Array Nat × Array Nat
-  | 0, _, _, ht, ct => (ht, ct)
+    Option (Array Nat × Array Nat)
+  | 0, _, _, ht, ct => some (ht, ct)
   | n+1, si, m, ht, ct =>
     let m := (m >>> 8) ||| ((src[si+3]!).toUInt32 <<< 24)
     let h := hashIdx m
+    if h ≥ ht.size ∨ si % winSize ≥ ct.size then none else
     let ct := ct.set! (si % winSize) ht[h]!
     let ht := ht.set! h si
     rehash src n (si+1) m ht ct
@@ -65,6 +70,8 @@ def mainLoop (src : Array UInt8) (sn depth : Nat) (notComp : Bool) :
     if si < sn then
       let m := ld32 src si
       let h := hashIdx m
+      -- `c.hashTable[h]`, `c.chainTable[si&winMask]`: index panics if the tables are too small
+      if h ≥ ht.size ∨ si % winSize ≥ ct.size then .err else
       match chainWalk src ct si sn depth ht[h]! 0 0 with
       | none => .err
       | some (mLen, offset) =>
@@ -74,7 +81,9 @@ def mainLoop (src : Array UInt8) (sn depth : Nat) (notComp : Bool) :
         mainLoop src sn depth notComp fuel ht ct dst di (si + 1 + (si - anchor) / 2 ^ adaptSkipLogHC) anchor
       else
         let winStart := if si + mLen > winSize + (si + 1) then si + mLen - winSize else si + 1
-        let (ht, ct) := rehash src (si + mLen - winStart) winStart m ht ct
+        match rehash src (si + mLen - winStart) winStart m ht ct with
+        | none => .err
+        | some (ht, ct) =>
         let lLen := si - anchor
         let si := si + mLen
         match emitSeq src dst di anchor lLen offset (mLen - minMatch) with
